@@ -10,8 +10,8 @@ GS = 100000        # generator values are scaled by 1e5 and compared up to 2e3
 
 
 def _observe(job):
-    fam, pos, theta, nextra = job
-    m = O.make(fam, theta)
+    fam, pos, theta, nextra = job[:4]
+    m = O.make(fam, theta, as_int=(len(job) > 4 and bool(job[4])))
     g = O.grid(nextra)
     n = len(g)
     X = O.mesh(g)
@@ -92,8 +92,11 @@ def run(ctx):
                 'INVARIANT Lipschitz\nCHECK_DEADLOCK FALSE\n', timeout=1500, extra=['-maxSetSize', '3000000'])
     jobs = []
     for fam in O.FAMS:
-        for pos, th in enumerate(O.chain(fam, nchain), 1):
-            jobs.append((fam, pos, th, 0 if quick else 31))
+        # whole-number parameters carried by integer objects take their place in the chain (Frank: -3 and 4; Clayton and Gumbel: 2 and 5)
+        ints = {'Clayton': (2, 5), 'Gumbel': (2, 5), 'Frank': (-3, 4)}[fam]
+        members = sorted([(th, 0) for th in O.chain(fam, nchain)] + [(float(t), 1) for t in ints])
+        for pos, (th, as_int) in enumerate(members, 1):
+            jobs.append((fam, pos, th, 0 if quick else 31, as_int))
     with Pool(16) as pool:
         obs = pool.map(O.Safe(_observe), jobs, chunksize=2)
     obs, jobs = O.split_raised(ctx, 'C06', obs, jobs, 'harness.props.C06._observe')
